@@ -240,7 +240,23 @@ def check(case, ctx):
         big = raw * np.sqrt(np.repeat(np.repeat(PL, Nr, axis=0),
                                       list(Nt) + NtE, axis=1))
     if noise is not None:
-        ch.noise_var = float(noise)
+        # the noise variance as the caller's number type (a Python float, an
+        # int such as ``noise_var = 1``, or a numpy scalar)
+        ntype = case.get("noise_type", "float")
+        if ntype == "int":
+            noise = float(max(1, int(round(noise))) if noise else 0)
+            ch.noise_var = int(noise)
+        elif ntype == "np.int64":
+            noise = float(max(1, int(round(noise))) if noise else 0)
+            ch.noise_var = np.int64(noise)
+        elif ntype == "np.float32":
+            noise = float(np.float32(noise))
+            ch.noise_var = np.float32(noise)
+        elif ntype == "np.float64":
+            ch.noise_var = np.float64(noise)
+        else:
+            ch.noise_var = float(noise)
+        ctx.label("noise_type=" + ntype)
     model = Model(Nr, Nt, NtE, big)
 
     # ---- precoders / filters ---------------------------------------------
@@ -409,6 +425,9 @@ def _strategy(tier):
             pl=draw(st.one_of(st.none(), seeds)),
             noise_var=draw(st.one_of(st.none(), st.just(0.0),
                                      loguniform(-4, 1), loguniform(-4, 1))),
+            noise_type=draw(st.sampled_from(["float", "float", "float", "int",
+                                             "np.int64", "np.float32",
+                                             "np.float64"])),
             pe=draw(st.one_of(st.none(), st.just(0.0), loguniform(-3, 2),
                               loguniform(-3, 2))),
             powers=[draw(st.one_of(st.just(1.0), loguniform(-2, 2)))
